@@ -580,6 +580,78 @@ Proof.
 Qed.
 
 (* ================================================================== *)
+(* Part 6b: the boundary of the biweight cut is immaterial              *)
+(* ================================================================== *)
+(* at |u| = 1 the weight (1-u^2)^2 and both midvariance terms vanish, so `|u| >= 1` vs `|u| > 1`
+   (location) and `|u| < 1` vs `|u| <= 1` (scale) define the same functions: a mutation of the
+   comparison operator is not observable, whatever the data *)
+Definition bw_w_strict (M s x : Q) : Q :=
+  let u := bw_u M s x in
+  if Qlt_bool 1 (Qabs u) then 0 else (1 - u * u) * (1 - u * u).
+Definition bs_in_incl (M s x : Q) : bool := Qle_bool (Qabs (bw_u M s x)) 1.
+Definition bs_t1_incl (M s x : Q) : Q :=
+  if bs_in_incl M s x
+  then let v := 1 - bw_u M s x * bw_u M s x in (x - M) * (x - M) * ((v * v) * (v * v))
+  else 0.
+Definition bs_t2_incl (M s x : Q) : Q :=
+  if bs_in_incl M s x
+  then let u2 := bw_u M s x * bw_u M s x in (1 - u2) * (1 - 5 * u2)
+  else 0.
+Definition est_biweight_with (w : Q -> Q -> Q -> Q) (c : Q) (l : list Q) : Q :=
+  let M := qmedian l in
+  let mad := madQ l in
+  if Qeq_bool mad 0 then M
+  else M + sumQ (map (fun x => (x - M) * w M (c * mad) x) l) / sumQ (map (w M (c * mad)) l).
+
+Lemma abs_one_sq u : Qabs u == 1 -> u * u == 1.
+Proof.
+  intros H. assert (E : u * u == Qabs u * Qabs u).
+  { rewrite <- Qabs_Qmult. symmetry. apply Qabs_pos, sq_nonneg. }
+  rewrite E, H. ring.
+Qed.
+
+Lemma bw_w_cut_boundary M s x : bw_w_strict M s x == bw_w M s x.
+Proof.
+  unfold bw_w_strict, bw_w. cbv zeta. set (u := bw_u M s x).
+  destruct (Qle_bool 1 (Qabs u)) eqn:E1; destruct (Qlt_bool 1 (Qabs u)) eqn:E2; try reflexivity.
+  - apply Qle_bool_iff in E1. apply Qlt_bool_false in E2.
+    assert (H : Qabs u == 1) by lra. rewrite (abs_one_sq u H). ring.
+  - apply Qlt_bool_iff in E2. assert (H : Qle_bool 1 (Qabs u) = true) by (apply Qle_bool_iff; lra).
+    congruence.
+Qed.
+
+Lemma bs_terms_cut_boundary M s x :
+  bs_t1_incl M s x == bs_t1 M s x /\ bs_t2_incl M s x == bs_t2 M s x.
+Proof.
+  unfold bs_t1_incl, bs_t1, bs_t2_incl, bs_t2, bs_in_incl, bs_in. cbv zeta. set (u := bw_u M s x).
+  destruct (Qle_bool (Qabs u) 1) eqn:E1; destruct (Qlt_bool (Qabs u) 1) eqn:E2;
+    try (split; reflexivity).
+  - apply Qle_bool_iff in E1. apply Qlt_bool_false in E2.
+    assert (H : Qabs u == 1) by lra. rewrite (abs_one_sq u H). split; ring.
+  - apply Qlt_bool_iff in E2. assert (H : Qle_bool (Qabs u) 1 = true) by (apply Qle_bool_iff; lra).
+    congruence.
+Qed.
+
+Lemma sumQ_map_ext_eq (f g : Q -> Q) l : (forall x, f x == g x) -> sumQ (map f l) == sumQ (map g l).
+Proof.
+  intros H. induction l as [|x l IH].
+  - reflexivity.
+  - now rewrite !sumQ_map_cons, IH, H.
+Qed.
+
+Lemma est_biweight_cut_boundary c l : est_biweight_with bw_w_strict c l == est_biweight c l.
+Proof.
+  unfold est_biweight_with, est_biweight, bw_num, bw_den. cbv zeta.
+  destruct (Qeq_bool (madQ l) 0); [reflexivity|].
+  rewrite (sumQ_map_ext_eq (bw_w_strict (qmedian l) (c * madQ l)) (bw_w (qmedian l) (c * madQ l)) l)
+    by (intros x; apply bw_w_cut_boundary).
+  rewrite (sumQ_map_ext_eq (fun x => (x - qmedian l) * bw_w_strict (qmedian l) (c * madQ l) x)
+                           (fun x => (x - qmedian l) * bw_w (qmedian l) (c * madQ l) x) l)
+    by (intros x; now rewrite bw_w_cut_boundary).
+  reflexivity.
+Qed.
+
+(* ================================================================== *)
 (* Part 7: the instances for C11                                        *)
 (* ================================================================== *)
 (* what is needed of the square root that turns the squared statistic into the RMS: it respects
